@@ -854,6 +854,18 @@ func (s *Identity) modulePrefixedName() string {
 	return fmt.Sprintf("%s:%s", m.Name, s.Name)
 }
 
+// dictionaryKey returns the key of the identity in the identity dictionary:
+// the full name (name@revision) of the module it belongs to and its name, so
+// that the identities of several loaded revisions of a module are kept apart.
+func (s *Identity) dictionaryKey() string {
+	m := module(s)
+	if m == nil {
+		// The identity is defined in a submodule whose module is unknown.
+		m = RootNode(s)
+	}
+	return fmt.Sprintf("%s:%s", m.FullName(), s.Name)
+}
+
 // IsDefined behaves the same as the implementation for Enum - it returns
 // true if an identity with the name is defined within the Values of the
 // identity
